@@ -97,7 +97,7 @@ func c18Body(r *RNG, thorough bool, bigLeft *int) []byte {
 	}
 	if *bigLeft > 0 && r.Chance(big) {
 		*bigLeft--
-		n := r.Pick(65535, 65534, 32768, 40000, 65535)
+		n := r.Pick(65535, 65534, 32768, 32767, 40000, 65535)
 		b := bytes.Repeat(r.Text(1+r.Intn(40)), n/1+1)[:n]
 		if c18YamlUnsafe(b) {
 			b[0] = 'x'
@@ -215,19 +215,21 @@ func (a c18Art) content() string {
 // ---------------------------------------------------------------- a running history
 
 type c18Run struct {
-	c       *Case
-	ts      *TS
-	cc      *hotline.ClientConn
-	file    string
-	toks    []string
-	impl    []string
-	labels  []string
-	nPost   int
-	nPanic  int
-	nDel    int
-	tid     uint32
-	quiet   bool // skip the follow-up queries of a step (long histories)
-	nReload int
+	c        *Case
+	ts       *TS
+	cc       *hotline.ClientConn
+	file     string
+	toks     []string
+	impl     []string
+	labels   []string
+	nPost    int
+	nPanic   int
+	nDel     int
+	tid      uint32
+	quiet    bool // skip the follow-up queries of a step (long histories)
+	nReload  int
+	saved    []byte
+	hasSaved bool
 }
 
 func (h *c18Run) obs(tok, label, impl string) {
@@ -236,10 +238,43 @@ func (h *c18Run) obs(tok, label, impl string) {
 	h.impl = append(h.impl, impl)
 }
 
+// c18Sentinel marks the end of what one dispatched request queued on the outbox.
+var c18Sentinel = hotline.TranType{0xff, 0xfe}
+
+// call sends one request.  Half of the requests (and every post with a large body) go through
+// ClientConn.handleTransaction — the dispatch a real connection uses, replies travel over the outbox —
+// the others call the registered handler function directly.
 func (h *c18Run) call(ty hotline.TranType, fs ...hotline.Field) ([]hotline.Transaction, any) {
 	h.tid++
-	res, _, p := h.ts.Call(h.cc, mkTran(ty, h.tid, fs...))
-	return res, p
+	big := false
+	for _, f := range fs {
+		if len(f.Data) > 30000 {
+			big = true
+		}
+	}
+	if !big && h.c.R.Bool() {
+		res, _, p := h.ts.Call(h.cc, mkTran(ty, h.tid, fs...))
+		return res, p
+	}
+	h.c.Dist("dispatch/handleTransaction")
+	var panicked any
+	func() {
+		defer func() {
+			if r := recover(); r != nil {
+				panicked = r
+			}
+		}()
+		h.cc.VerifHandleTransaction(mkTran(ty, h.tid, fs...))
+	}()
+	// barrier: once the collector has taken the sentinel it has stored everything sent before it
+	h.ts.Srv.VerifOutbox() <- hotline.Transaction{Type: c18Sentinel}
+	var res []hotline.Transaction
+	for _, t := range h.ts.TakeOutbox() {
+		if t.Type != c18Sentinel {
+			res = append(res, t)
+		}
+	}
+	return res, panicked
 }
 
 func c18Kind(res []hotline.Transaction, p any) string {
@@ -560,6 +595,27 @@ func (h *c18Run) stepRestart() {
 	h.obs("R", "restart", o)
 }
 
+// stepSaveFile / stepRestoreFile: the operator copies ThreadedNews.yaml and later puts the copy back
+// (only the file changes; the running store learns of it at the next reload).
+func (h *c18Run) stepSaveFile() {
+	h.saved = h.fileBytes()
+	h.hasSaved = true
+	h.obs("SV", "operator saves a copy of the file", "saved")
+}
+
+func (h *c18Run) stepRestoreFile() bool {
+	if !h.hasSaved {
+		return false
+	}
+	tmp := h.file + ".operator"
+	if os.WriteFile(tmp, h.saved, 0644) != nil || os.Rename(tmp, h.file) != nil {
+		return false
+	}
+	h.c.Dist("file-restored")
+	h.obs("RS", "operator puts the saved copy back", "restored")
+	return true
+}
+
 func (h *c18Run) stepReload() {
 	h.nReload++
 	err := h.ts.News.Load()
@@ -752,7 +808,9 @@ func (h *c18Run) sweep(paths [][][]byte, second bool) {
 }
 
 // secondStore answers the same queries from a store freshly loaded from the YAML file.
-func (h *c18Run) secondStore(paths [][][]byte) {
+func (h *c18Run) secondStore(paths [][][]byte) { h.secondStoreKey(paths, "reload-differs") }
+
+func (h *c18Run) secondStoreKey(paths [][][]byte, key string) {
 	s2, err := mobius.NewThreadedNewsYAML(h.file)
 	if err != nil {
 		h.c.Note("load_error", err.Error())
@@ -769,7 +827,7 @@ func (h *c18Run) secondStore(paths [][][]byte) {
 	h.sweep(paths, true)
 	h.ts.Srv.ThreadedNewsMgr = old
 	if len(h.impl)-i1 != i1-i0 {
-		h.viol("reload-differs", "the second store answers a different number of queries")
+		h.viol(key, "the second store answers a different number of queries")
 		return
 	}
 	for k := 0; k < i1-i0; k++ {
@@ -785,7 +843,7 @@ func (h *c18Run) secondStore(paths [][][]byte) {
 			h.c.Note("query", h.labels[i0+k])
 			h.c.Note("memory", clip(a))
 			h.c.Note("file", clip(b))
-			h.viol("reload-differs", "a store freshly loaded from the news file answers "+h.labels[i0+k]+" differently from the running store")
+			h.viol(key, "a store freshly loaded from the news file answers "+h.labels[i0+k]+" differently from the running store")
 			return
 		}
 	}
